@@ -36,9 +36,9 @@ from vf.ref import c11_wire as wire
 PROPERTY = "C11"
 LEVEL = "exploration"
 ENGINE = "sansio"
-BUDGET = {"quick": (700, 20), "thorough": (40000, 240)}
+BUDGET = {"quick": (500, 14), "thorough": (40000, 230)}
 WORKERS = {"quick": 4, "thorough": 16}
-REQUIRED = ["frozen", "handoff", "once", "kill.nothing", "kill.error", "held_with_events"]
+REQUIRED = ["frozen", "handoff", "progress", "once", "kill.nothing", "kill.error", "held_with_events"]
 TECHNIQUE = "runtime monitoring: sans-io schedule exploration with withheld hook completions; per-step frozen-destination monitor + independent wire decoders"
 RULE = (
     "case = (protocol in h1/h2/ws/tcp/udp/dns, generated messages with unique tags, intercept filter for the real Intercept addon, "
@@ -133,10 +133,22 @@ class Session:
             rec = {"tag": None, "side": None, "metric": lambda: 0, "capture": lambda: None, "step": drv.step_no, "hook": hook.name, "cmd": hook, "flow": f, "final": None, "out_idx": len(drv.out_log), "hook_idx": len(drv.hooks)}
         rec["decision"] = "hold"
         task = self.loop.create_task(f.wait_for_resume())
-        pump(self.loop, 1)
+        pump(self.loop, 2)
+        self.ctx.count("handoff")
+        if task.done():
+            # handle_hook would complete the hook right away: the intercepted flow is not held at all
+            self.violate("intercepted-flow-not-held:wait_for_resume-returned-while-flow.intercepted", {"hook": hook.name, "tag": rec["tag"], "earlier_holds_of_flow": [h["rec"]["hook"] for h in self.holds if h["flow"] is f]})
+            rec["decision"] = "pass"
+            rec["final"] = rec["capture"]()
+            f.intercepted = False
+            return None
         action = "kill" if self.r.random() < self.user_kill else "resume"
         if rec["tag"] is not None and self.edit is not None and self.r.random() < 0.5 and rec.get("editable", True):
             action = "edit+" + action
+        if rec.get("absent") is not None:
+            self.ctx.count("frozen")
+            if not rec["absent"]():
+                self.violate("intercepted-message-already-at-its-destination", {"hook": hook.name, "tag": rec["tag"], "metric_at_intercept": rec["metric"]()}, classify(self.proto, "frozen", {"hook": hook.name}))
         h = {
             "rec": rec, "flow": f, "cmd": hook, "task": task, "status": "held", "step": drv.step_no, "baseline": rec["metric"](),
             "wait": self.r.choice([0, 0, 1, 2, 4, 8, 10**6, 10**6]), "forced": False, "action": action, "events": 0, "reported": False,
@@ -234,6 +246,9 @@ class Session:
                 continue
             h["events"] += new_events
             self.ctx.count("frozen")
+            if h["task"].done() and not h["reported"]:
+                h["reported"] = True
+                self.violate("intercepted-flow-not-held:wait_for_resume-returned-before-resume-or-kill", {"hook": h["rec"]["hook"], "tag": h["rec"]["tag"]})
             cur = h["rec"]["metric"]()
             if cur != h["baseline"] and not h["reported"]:
                 h["reported"] = True
@@ -286,6 +301,18 @@ class Session:
             )
 
 
+class RecDriver(sansio.Driver):
+    """Driver that also remembers every event it fed (step, event)."""
+
+    def __init__(self, *a, **kw):
+        super().__init__(*a, **kw)
+        self.fed = []
+
+    def feed(self, ev):
+        self.fed.append((self.step_no, ev))
+        super().feed(ev)
+
+
 def classify(proto, kind, info):
     """Mechanism from the protocol and the history (where the flow was killed / what it was doing) -- never from seeds."""
     if kind == "handoff":
@@ -301,7 +328,7 @@ def classify(proto, kind, info):
             return "websocket-layer-ignores-kill"
         if proto == "dns" and (where != "dns_request" or st.get("request_forwarded") or st.get("has_response")):
             return "dns-layer-honours-kill-only-in-dns_request-hook-of-a-fresh-flow"
-        if proto in ("h1", "h2"):
+        if proto in ("h1", "h2") and kind == "kill.nothing":
             if where == "request" and st.get("request_streamed"):
                 return "http-kill-in-request-hook-of-streamed-request-ignored"
             if where == "transit":
@@ -344,6 +371,7 @@ def run_stream_case(ctx, opts, loop, proto):
             "msg": m,
             "orig": bytes(m.content),
             "metric": lambda: len(drv.out[dest]),
+            "absent": (lambda: mt.group(1) not in bytes(drv.out[dest])) if mt else None,
             "capture": lambda: bytes(m.content),
         }
 
@@ -468,10 +496,14 @@ def run_dns_case(ctx, opts, loop, proto):
     def describe(drv, hook, f):
         if hook.name == "dns_request":
             q = f.request.questions[0]
+            first = not any(x["hook"] == "dns_request" and x["qid"] == f.request.id for x in S.records)
             return {"tag": by_id.get(f.request.id, (None,))[0], "side": "server", "qid": f.request.id, "metric": lambda: count_to(drv, drv.context.server, f.request.id),
+                    "absent": (lambda: count_to(drv, drv.context.server, f.request.id) == 0) if first else None,
                     "capture": lambda: f.request.questions[0].name.encode()}
         if hook.name == "dns_response":
+            first = not any(x["hook"] == "dns_response" and x["qid"] == f.request.id for x in S.records)
             return {"tag": by_id.get(f.request.id, (None,))[0], "side": "client", "qid": f.request.id, "metric": lambda: count_to(drv, drv.client, f.request.id),
+                    "absent": (lambda: count_to(drv, drv.client, f.request.id, answers_only=True) == 0) if first else None,
                     "capture": lambda: (f.response.answers[0].data if f.response and f.response.answers else None),
                     "editable": bool(f.response and f.response.answers)}
         return None
@@ -486,7 +518,7 @@ def run_dns_case(ctx, opts, loop, proto):
     S = Session(ctx, r, loop, "dns", describe, edit, transit=0.15)
     S.kill_state = lambda d, f, where: {"request_forwarded": count_to(d, d.context.server, f.request.id) > 0, "has_response": f.response is not None}
     origin = DnsOrigin(silent, addr_of)
-    d = sansio.Driver(
+    d = RecDriver(
         lambda c: layers.DNSLayer(c), client=client, options=opts, rng=r, addons=[ctx.c11_intercept], policy=S.policy,
         server_factory=lambda drv, conn: origin, schedule=r.choice(["random", "random", "fifo"]), m3=[S.m3], max_steps=600,
     )
@@ -536,6 +568,13 @@ def run_dns_case(ctx, opts, loop, proto):
                 later.append(("server" if c is server else "client", m))
         if later:
             S.violate("forwarded-after-kill", {**witness, "id": qid, "killed_at": k["hook"], "how": k["how"], "sent_after_kill": later[:4], "state": k["extra"]}, classify("dns", "kill.nothing", k))
+        if k["hook"] == "transit":
+            # without a further datagram for this id the layer never runs for the flow again (nothing to forward, nothing to end)
+            from mitmproxy.proxy import events as mevents
+
+            again = any(step > k["step"] and isinstance(ev, mevents.DataReceived) and (wire.dns_read(ev.data) or {}).get("id") == qid for step, ev in d.fed)
+            if not again:
+                continue
         S.check_kill_error(d, k, ("dns_error",))
     return S, d, ("retransmit" if len(segs) > n else "plain", "silent" if silent else "answered"), witness
 
@@ -571,7 +610,7 @@ def http_kill_state(drv, f, where):
     }
 
 
-def http_describe_factory(r, to_server_metric, to_client_metric, p_stream, has_body):
+def http_describe_factory(r, to_server_metric, to_client_metric, p_stream, has_body, absent_at):
     def describe(drv, hook, f):
         if hook.name not in HTTP_HOOKS or not isinstance(f, http.HTTPFlow):
             return None
@@ -595,6 +634,7 @@ def http_describe_factory(r, to_server_metric, to_client_metric, p_stream, has_b
             "tag": tag, "side": "server" if req_side else "client", "streamed": streamed,
             "metric": (lambda: to_server_metric(drv, tag)) if req_side else (lambda: to_client_metric(drv, tag)),
             "capture": capture,
+            "absent": (lambda: absent_at(drv, tag, req_side)) if tag is not None and not (hook.name in ("request", "response") and streamed) else None,
             "editable": msg() is not None and not (hook.name in ("request", "response") and streamed),
         }
 
@@ -639,7 +679,8 @@ def run_h1_case(ctx, opts, loop, proto):
 
     to_server = lambda drv, tag: sum(len(drv.out[c]) for c in drv.servers)
     to_client = lambda drv, tag: len(drv.out[drv.client])
-    S = Session(ctx, r, loop, "h1", http_describe_factory(r, to_server, to_client, 0.3, lambda tag: tag in by_tag and by_tag[tag]["framing"] != "none"), http_edit_factory(r), p_intercept=0.25, p_kill=0.05, transit=0.2)
+    S = Session(ctx, r, loop, "h1", http_describe_factory(r, to_server, to_client, 0.3, lambda tag: tag in by_tag and by_tag[tag]["framing"] != "none",
+                                                          lambda drv, tag, req_side: all(tag not in bytes(drv.out[c]) for c in (drv.servers if req_side else [drv.client]))), http_edit_factory(r), p_intercept=0.25, p_kill=0.05, transit=0.2)
     S.kill_state = http_kill_state
     client = sansio.make_client(mode)
     d = sansio.Driver(
@@ -774,7 +815,8 @@ def run_h2_case(ctx, opts, loop, proto):
             return (False, 0, 0, False, False)
         return (x["headers"] is not None, len(peers_h2.body_of(x)), len(x["chunks"]), x["ended"], x["trailers"] is not None)
 
-    S = Session(ctx, r, loop, "h2", http_describe_factory(r, to_server, to_client, 0.3, lambda tag: tag in streams and bool(streams[tag]["body"])), http_edit_factory(r), p_intercept=0.25, p_kill=0.04, transit=0.15)
+    S = Session(ctx, r, loop, "h2", http_describe_factory(r, to_server, to_client, 0.3, lambda tag: tag in streams and bool(streams[tag]["body"]),
+                                                          lambda drv, tag, req_side: (to_server(drv, tag) == ()) if req_side else (to_client(drv, tag) == (False, 0, 0, False, False))), http_edit_factory(r), p_intercept=0.25, p_kill=0.04, transit=0.15)
 
     def kill_state(drv, f, where):
         st = http_kill_state(drv, f, where)
@@ -938,6 +980,7 @@ def run_ws_case(ctx, opts, loop, proto):
         return {
             "tag": mt.group(1) if mt else None, "side": "server" if m.from_client else "client", "msg": m, "orig": bytes(m.content),
             "metric": lambda: ws_data(bytes(drv.out[dest]))[1], "capture": lambda: (bytes(m.content), bool(m.dropped)),
+            "absent": (lambda: not any(mt.group(1) in payload for op, payload in ws_data(bytes(drv.out[dest]))[0])) if mt else None,
         }
 
     def edit(rec):
